@@ -168,6 +168,14 @@ MULTIFILE_ORDER = [
     "main:\n    call fa\n    call fb\n    li a7, 10\n    ecall\nfa:\n    beqz a0, shared\n    li s1, 1\n    ret\nfb:\n    li s2, 2\nshared:\n    li s3, 3\n    ret\n",
 ]
 
+# control/status registers and memory addressed through them
+CSR_PROGRAMS = [
+    "main:\n    csrr t0, 5\n    li t1, 5\n    add a0, t0, t1\n    li a7, 10\n    ecall\n",
+    "main:\n    la t0, handler\n    csrrw zero, 5, t0\n    csrrwi zero, 64, 3\n    csrr t1, 64\n    li a7, 10\n    ecall\nhandler:\n    csrrw t0, 64, t0\n    sw t1, 0(t0)\n    lw t1, 0(t0)\n    csrrw t0, 64, t0\n    uret\n",
+    # a slot addressed through a CSR value, written on two paths, read behind an exit ecall that is cut later
+    "main:\n    csrrw t0, 64, zero\n    li t1, 7\n    sw t1, 0(t0)\n    bnez a0, work\n    li t3, 9\n    sw t3, 0(t0)\n    li a7, 10\n    ecall\nwork:\n    lw t2, 0(t0)\n    mv a0, t2\n    li a7, 1\n    ecall\n    li a7, 10\n    ecall\n",
+]
+
 # shapes on which two lints, or two nodes from one token, find the same problem (C10: reported once)
 DUP_PROGRAMS = [
     "main:\n    lw x0, lab\n    li a7, 10\n    ecall\n.data\nlab: .word 1\n",
